@@ -51,13 +51,24 @@ PROPS.update({
                  engines=[{"engine": "crash", "shim": True}, {"engine": "seq", "shim": False}]),
 })
 
+PROPS["C14"] = {
+    "engines": [{"engine": "fault", "shim": True}],
+    "rule": ("every history of the stated depth over the stated alphabet is first run fault-free to count its m mutating/sync libc calls (incl. those of open and close); "
+             "then for every k in 1..m it is re-run with call k returning EIO without side effect, continued to its end and reopened cleanly. A per-key "
+             "set-of-allowed-values model (old or new for keys of failed operations, exact for all others) is checked by reading every key after every step and after the reopen. "
+             "states = distinct (faulted call site, operation in flight, number of failed ops); transitions = operations executed."),
+    "explanation": "One injected I/O failure at every mutating filesystem call of every bounded history: no panic, the failed operation's keys hold old or new, all other keys exact, reopen succeeds.",
+}
+
 ENGINES = [
     {"name": "seq", "path": "harness/src/seq.rs", "serves_properties": ["C01", "C02", "C07", "C12", "C13"],
      "kind_free_text": "bounded-exhaustive operation-sequence enumeration on the real store vs BTreeMap model + independent on-disk decoders"},
+    {"name": "fault", "path": "harness/src/fault.rs", "serves_properties": ["C14"],
+     "kind_free_text": "one EIO at every mutating libc call of every bounded history (LD_PRELOAD shim), continuation + reopen vs per-key allowed-value model"},
     {"name": "crash", "path": "harness/src/crash.rs", "serves_properties": ["C03", "C20"],
      "kind_free_text": "every syscall boundary of every bounded history: live-directory crash images via LD_PRELOAD shim, recovered and checked, nested in recovery"},
 ]
 
 # properties not (yet) claimed; kept current as engines land
 NOT_APPLICABLE = {p: "engine not built yet in this round (planned, see DESIGN.md §3)" for p in
-                  ["C04", "C05", "C06", "C08", "C09", "C10", "C11", "C14", "C15", "C16", "C17", "C18", "C19"]}
+                  ["C04", "C05", "C06", "C08", "C09", "C10", "C11", "C15", "C16", "C17", "C18", "C19"]}
